@@ -7,6 +7,7 @@ from typing import (
     TYPE_CHECKING,
     Any,
     Optional,
+    TypeVar,
     Union,
     cast,
 )
@@ -25,6 +26,43 @@ if TYPE_CHECKING:  # pragma: no cover
     from .transforms.contrasts import ContrastsState
 
 from functools import cached_property
+
+_V = TypeVar("_V")
+
+
+class _TermMapping(dict[Term, _V]):
+    """
+    A `dict` keyed by `Term` instances that can also be indexed by the printed
+    form of its terms.
+
+    `Term` instances hash like the *sorted* join of their factors, so a plain
+    dictionary only finds a string key when the factors happen to be printed in
+    sorted order (`"A:B"` but not `"B:A"`, and never a factor that is printed in
+    backticks). String keys that are not found directly are therefore resolved
+    by comparing them with the printed form of the stored terms.
+    """
+
+    def _resolve(self, key: Any) -> Optional[Term]:
+        if isinstance(key, str):
+            for term in self:
+                if repr(term) == key:
+                    return term
+        return None
+
+    def __missing__(self, key: Any) -> _V:
+        term = self._resolve(key)
+        if term is None:
+            raise KeyError(key)
+        return dict.__getitem__(self, term)
+
+    def __contains__(self, key: Any) -> bool:
+        return dict.__contains__(self, key) or self._resolve(key) is not None
+
+    def get(self, key: Any, default: Any = None) -> Any:
+        try:
+            return self[key]
+        except KeyError:
+            return default
 
 
 @dataclass(frozen=True)
@@ -201,7 +239,7 @@ class ModelSpec:
         up elements of this mapping using the string representation of the
         `Term`.
         """
-        slices = {}
+        slices: dict[Term, list[int]] = _TermMapping()
         start = 0
         for row in self.__structure:
             end = start + len(row[2])
@@ -251,10 +289,12 @@ class ModelSpec:
         up elements of this mapping using the string representation of the
         `Term`.
         """
-        return {
-            k: slice(v[0], v[-1] + 1) if v else slice(0, 0)
-            for k, v in self.term_indices.items()
-        }
+        return _TermMapping(
+            {
+                k: slice(v[0], v[-1] + 1) if v else slice(0, 0)
+                for k, v in self.term_indices.items()
+            }
+        )
 
     @cached_property
     def term_factors(self) -> dict[Term, set[Factor]]:
